@@ -163,8 +163,8 @@ PROPS["C34"] = dict(
     },
     level_text="Unstructured half: unbounded theorems over the model of build_chunk_manifest/choose_chunk_boundary/slice_text_range/plan_naive_chunks/plan_text_chunks (any text over any character type, any three character tests, any chunk size > 0): the loop terminates without panic, the ranges are contiguous from 0 to the character count and non-empty, the chunk texts are non-empty and concatenate to the text, every range is at most chunk size + slack long; model tied to the code by differential runs comparing exact ranges and chunk strings. Structured half PARTIAL: unbounded theorem over the model of StructuralChunker::chunk (any element list, any max_chars): every rendered string handed to the chunker is inside some chunk and table splitting loses no row; the coverage clause as stated is refuted (8 known classes) and proved outside the known class; the detector is an oracle.",
     level_note="Trusted: Coq kernel + vm_compute; hand-written models of src/memvid/chunks.rs and src/structure/chunker.rs (tied by correspondence on exact ranges / chunk texts); char::is_whitespace modelled as the Unicode White_Space code point set; normalize_text, detect_structure and the format() renderers are oracles (their outputs are inputs of the models); harness and translator. Structured half is PARTIAL: no model of detect_structure, so the relation between the lines of the normalized text and the elements is an input (checked per case by the harness); 'no chunk is empty' for structured plans is checked by the oracle on the implementation only.",
-    n_quick=320, n_thorough=6000,
-    rule="manifest: raw texts of 0-1900 characters over {newline, .!?, 20 kinds of Unicode whitespace, look-alike non-boundaries, letters/multi-byte} in 9 styles "
+    n_quick=200, n_thorough=6000,
+    rule="fixed threshold corpus first (359 cases, seed-independent): every size the planner compares against -- CHUNK_MIN_CHARS 2400, chunk size 8/40/200/1200 with its target+slack window, structural max_chars 1200 for table/paragraph/list -- met at the constant and constant+-1 measured in CHARACTERS and separately in BYTES with pure 1-/2-/3-/4-byte code points (ASCII, Latin-1/Greek/Cyrillic, CJK, emoji) and mixed, so each (chars side, bytes side) combination occurs (chars<2400<=bytes, chars=2399/2400/2401 with bytes far above, bytes=2399/2400/2401 with chars far below), unstructured and with table/list, plus non-normalized raw variants (CRLF, tabs, blank lines, NBSP/ideographic space, full-width punctuation) that normalize to the same text; then generated: manifest: raw texts of 0-1900 characters over {newline, .!?, 20 kinds of Unicode whitespace, look-alike non-boundaries, letters/multi-byte} in 9 styles "
          "(mixed, no newline, whitespace only, no boundary at all, terminal-dense, newline-dense, sparse, prose, marks planted at the edges of the first window) with explicit "
          "chunk sizes 0..420 and 0/len-1/len/len+1/usize::MAX; plan: prose of 0-11000 characters through plan_text_chunks (newline density none..every 20 chars, CRLF, tabs, "
          "double spaces, whitespace-free runs longer than chunk+slack, no terminals, exact normalized lengths 2398..2402/2640/2641); structured: markdown documents with tables of 0-230 rows, "
@@ -1220,10 +1220,12 @@ PROPS["C07"] = dict(
     harness_timeout=3000,
     rule="histories of 1-4 commit batches on a real memory (shared Driver), each batch 1-4 ops: puts (payload classes: empty, 1-8 random/zero/ASCII bytes, zero-filled, random binary, "
          "non-UTF-8 with one bad byte short/long, highly compressible, UTF-8 of exactly 2399/2400/2401 characters ASCII and multibyte, larger prose with/without newlines and multibyte, "
-         "structured text with tables/code, whitespace only, control-heavy, text the normalizer changes, sentence end + unbroken 1440..2600-char token (single-space chunk), 20-60 KB binary forcing log growth, UTF-8 with NUL) "
+         "structured text with tables/code, whitespace only, control-heavy, text the normalizer changes, sentence end + unbroken 1440..2600-char token (single-space chunk), 20-60 KB binary forcing log growth, UTF-8 with NUL; multi-byte text (2-, 3-, 4-byte code points, pure and mixed with ASCII, already normalized or with CRLF / tabs / ideographic and double spaces / blank lines / leading+trailing whitespace / full-width punctuation and letters) "
+         "whose normalized CHARACTER count is 1200, 1201, 2399, 2400, 2401 or anywhere in 600..2399 with >= 2400 BYTES, or whose BYTE count is 2399/2400/2401 with fewer characters) "
          "x option classes (default, all extras off, auto_tag off + instant index, with uri, budget 0, caller search text), updates with payload, payload-reusing updates, deletes; "
-         "with/without begin_batch compression level 0/1/3/9; ended by commit or by exit-without-commit + reopen (replay), optionally followed by a reopen; 5 fixed histories first (tiny payload sweep, "
-         "threshold texts, the two reproduction inputs of the fixed defect 270cbaf, the witness of F-C07-2). After every commit every frame is read through frame_canonical_payload, blob_reader (to the end) "
+         "with/without begin_batch compression level 0/1/3/9; ended by commit or by exit-without-commit + reopen (replay), optionally followed by a reopen; 9 fixed histories first (tiny payload sweep, "
+         "ASCII threshold texts, the two reproduction inputs of the fixed defect 270cbaf, the witness of F-C07-2, four multi-byte threshold histories). "
+         "The harness decides by itself (normalize_text + its own constant 2400) whether a UTF-8 text is below the chunking threshold and then demands the whole-payload reads (== P) whatever the implementation planned. After every commit every frame is read through frame_canonical_payload, blob_reader (to the end) "
          "and frame_text_by_id and the stored window is read from the file with std::fs; compared with the model: all payload fields of all frames (offset, length, checksum, encoding, canonical length, role, manifest, parent, chunk index, status) "
          "and the three reads (lengths + BLAKE3), or the commit error kind; property oracle: byte equality with what was put, BLAKE3 of the stored window = checksum, canonical_length, shared fields of reusing updates, "
          "chunk frames = planned chunks, parent = concatenation in chunk_index order = normalize_text (unstructured), unchanged after reopen; non-trivial = the history committed at least one whole or chunked payload; distinct by digest of the model input",
